@@ -84,14 +84,17 @@ def einsum(c):
   b = arr(c['bias']) if c['use_bias'] else None
   params = {'kernel': k, **({'bias': b} if b is not None else {})}
   res = {}
-  res['linen'] = safe(lambda: out(nn.Einsum(tuple(k.shape), c['eq'], use_bias=c['use_bias'], param_dtype=F64).apply({'params': params}, x)))
+  if c.get('ctor_eq'):
+    res['linen'] = safe(lambda: out(nn.Einsum(tuple(k.shape), None, use_bias=c['use_bias'], param_dtype=F64).apply({'params': params}, x, c['eq'])))
+  else:
+    res['linen'] = safe(lambda: out(nn.Einsum(tuple(k.shape), c['eq'], use_bias=c['use_bias'], param_dtype=F64).apply({'params': params}, x)))
 
   def nx():
-    m = nnx.Einsum(c['eq'], tuple(k.shape), tuple(b.shape) if b is not None else None, param_dtype=F64, rngs=nnx.Rngs(0))
+    m = nnx.Einsum(c.get('ctor_eq') or c['eq'], tuple(k.shape), tuple(b.shape) if b is not None else None, param_dtype=F64, rngs=nnx.Rngs(0))
     m.kernel.value = k
     if b is not None:
       m.bias.value = b
-    return out(m(x))
+    return out(m(x, c['eq'])) if c.get('ctor_eq') else out(m(x))
   res['nnx'] = safe(nx)
   res['ref'] = safe(lambda: out(R.einsum(c['eq'], np.array(c['x'], float), np.array(c['kernel'], float), None if b is None else np.array(c['bias'], float))))
   return res
